@@ -10,10 +10,16 @@
    explicit list) picks from fileset F; `target G en` = the name the template of G generates from the times and the
    placeholder values of file en.
 
+   written_is_found covers every way of spelling the end that C02 proves: a complete end (written_is_found), only
+   sub-day end fields (written_is_found_partial, written_is_found_exact: hypotheses exactly those of
+   C02.roundtrip_end_partial / roundtrip_end_partial_exact), no end fields (written_is_found_no_end); the harness
+   evaluates written_is_found_law per write.  An explicit selection that is empty selects nothing
+   (empty_selection_noop), and the arguments of a single call (read_with_args, write_with_args) are merged into a new
+   dictionary for that call: the FileSet object keeps its defaults over every history of calls (calls_keep_object,
+   args_do_not_stick).
+
    NOT PROVED (named gaps):
-     * written_is_found for templates whose end is written only partially (end_hour/end_minute/end_second): it would
-       need C02's roundtrip_end_partial, which is itself open; templates without end fields are covered by
-       C02.no_end_fields in the same way as below and are not restated here.
+     * end-field sets other than none / as complete as the start / a sub-day suffix (not proved in C02 either).
      * the order in which worker threads / processes of FileSet.map treat the selected files (property C10): the model
        treats them one after the other; under the hypotheses of move_conserves (distinct fresh targets) the
        result does not depend on the order, which is proved only implicitly (the statement is pointwise). *)
@@ -46,6 +52,7 @@ Notation touched := (touched Data Bytes).
 Notation moved := (moved Data Bytes enc dec pack unpack).
 Notation new_content := (new_content Data Bytes enc dec pack unpack).
 Notation untouched := (untouched Data Bytes enc dec pack unpack).
+Notation entry_of := (entry_of Data).
 
 (* CORE (DESIGN section 10, rung 2).  move / copy, with or without conversion: when the names the target template
    generates for the selected files are pairwise distinct and do not exist yet, then after a move that did not raise
@@ -120,6 +127,62 @@ Theorem written_is_found : forall (F : fset) x s e fill p (d d' : disk) a b,
               In (En p s e at_) (entries F (Sel a b [] [] None) d').
 Proof. exact (written_is_found_thm Data Bytes enc pack). Qed.
 
+(* the same for a template whose end is spelt only with sub-day fields (end_hour / end_minute / end_second /
+   end_millisecond); hypotheses exactly those of C02.roundtrip_end_partial.  The file is found under the period
+   (s, e') where e' = e's spelt fields completed by those of s, moved on by the unit above the coarsest spelt end
+   field iff it would precede s -- by every find(a, b) whose window meets [s, e'], and by NO selection under any
+   other period; when e' would lie after 9999-12-31 get_info raises OverflowError and no selection reports the file *)
+Theorem written_is_found_partial : forall (F : fset) x s e fill p (d d' : disk),
+  start_ok (tpl F) s -> valid e -> s <= e -> end_partial (tpl F) = true -> deterministic fill (tpl F) = true ->
+  render (tpl F) s e fill = Ok p -> write_file F x p d = Good d' ->
+  exists r at_, complete (tpl F) (fields s) (fields e) = Some r /\ attrs_are fill (tpl F) at_ /\
+    let e' := roll (unit_above (tpl F)) s r in
+    if validb e'
+    then finfo F p = Ok (s, e', at_) /\
+         (forall a b, s <= b - 1 -> a <= e' -> In (En p s e' at_) (entries F (Sel a b [] [] None) d')) /\
+         (forall sl en, In en (entries F sl d') -> e_path en = p -> en = En p s e' at_)
+    else finfo F p = Error EOverflow /\ (forall sl en, In en (entries F sl d') -> e_path en <> p).
+Proof. exact (written_is_found_partial_thm Data Bytes enc pack). Qed.
+
+(* ... and under EXACTLY the period [s, e] it was written with whenever the end spells every sub-unit field the
+   start spells, e has nothing in unspelt fields and 0 <= e - s < the unit above the coarsest spelt end field
+   (hypotheses exactly those of C02.roundtrip_end_partial_exact): across day, month and year ends *)
+Theorem written_is_found_exact : forall (F : fset) x s e fill p (d d' : disk) a b,
+  start_ok (tpl F) s -> valid e -> end_partial (tpl F) = true -> end_exact (tpl F) (fields e) = true ->
+  0 <= e - s < unit_above (tpl F) -> deterministic fill (tpl F) = true ->
+  render (tpl F) s e fill = Ok p -> write_file F x p d = Good d' -> s <= b - 1 -> a <= e ->
+  exists at_, attrs_are fill (tpl F) at_ /\ finfo F p = Ok (s, e, at_) /\
+              In (En p s e at_) (entries F (Sel a b [] [] None) d') /\
+              (forall sl en, In en (entries F sl d') -> e_path en = p -> en = En p s e at_).
+Proof. exact (written_is_found_exact_thm Data Bytes enc pack). Qed.
+
+(* a template without end fields (hypotheses exactly those of C02.no_end_fields): found under (s, s + time_coverage),
+   or (s, s) for a fileset without time_coverage *)
+Theorem written_is_found_no_end : forall (F : fset) x s e fill p (d d' : disk),
+  start_ok (tpl F) s -> valid e -> 1000 <= year (fields e) -> end_fields (tpl F) = [] ->
+  deterministic fill (tpl F) = true -> render (tpl F) s e fill = Ok p -> write_file F x p d = Good d' ->
+  exists at_, attrs_are fill (tpl F) at_ /\
+    match (match cov F with Some c => add s c | None => Some s end) with
+    | Some e' => finfo F p = Ok (s, e', at_) /\
+                 (forall a b, s <= b - 1 -> a <= e' -> In (En p s e' at_) (entries F (Sel a b [] [] None) d')) /\
+                 (forall sl en, In en (entries F sl d') -> e_path en = p -> en = En p s e' at_)
+    | None => finfo F p = Error EOverflow /\ (forall sl en, In en (entries F sl d') -> e_path en <> p)
+    end.
+Proof. exact (written_is_found_no_end_thm Data Bytes enc pack). Qed.
+
+(* the form the harness evaluates after every write F[s:e, fill] = x: the boolean wif_hyp (the hypotheses of the three
+   C02 clauses) implies that the file is found under exactly (s, wif_period F s e), which is (s, e) in the exact class *)
+Theorem written_is_found_law : forall (F : fset) x s e fill p (d d' : disk),
+  wif_hyp F s e fill = true -> render (tpl F) s e (fill_of fill) = Ok p -> write_file F x p d = Good d' ->
+  (wif_exact F s e = true -> wif_period F s e = Some e) /\
+  match wif_period F s e with
+  | Some e' => exists at_, attrs_are (fill_of fill) (tpl F) at_ /\ finfo F p = Ok (s, e', at_) /\
+                 (forall a b, s <= b - 1 -> a <= e' -> In (En p s e' at_) (entries F (Sel a b [] [] None) d')) /\
+                 (forall sl en, In en (entries F sl d') -> e_path en = p -> en = En p s e' at_)
+  | None => finfo F p = Error EOverflow /\ (forall sl en, In en (entries F sl d') -> e_path en <> p)
+  end.
+Proof. exact (written_is_found_law_thm Data Bytes enc pack). Qed.
+
 (* selection by period and filters = the brute-force filter, by definition of the model (tied to find() by the
    correspondence; that find() computes it is property C01) *)
 Theorem selection_exact : forall (F : fset) sl (d : disk) en, s_files sl = None ->
@@ -148,6 +211,61 @@ Proof. exact (step_frame_thm Data Bytes enc dec pack unpack). Qed.
 Theorem history_frame : forall r ops (d d' : disk),
   run ops d = Good d' -> untouched r ops d -> dlook r d' = dlook r d.
 Proof. exact (run_frame_thm Data Bytes enc dec pack unpack). Qed.
+
+(* an explicit selection that is EMPTY (files=[]) selects nothing: move / copy / delete / dry run do not raise and
+   leave the whole disk as it is -- they do not fall back to "every file of the fileset" *)
+Theorem empty_selection_noop : forall (F G : fset) copy conv dry sl (d : disk), s_files sl = Some [] ->
+  find F sl d = Good [] /\ move F G copy conv sl d = Good d /\ delete F dry sl d = Good d /\
+  step (OMove F G copy conv sl) d = Good (d, VNone) /\ step (ODelete F dry sl) d = Good (d, VNone).
+Proof. exact (empty_selection_noop_thm Data Bytes enc dec pack unpack). Qed.
+
+(* an explicit selection is taken as it is: period, filters and the rest of the disk play no role *)
+Theorem explicit_selection : forall (F : fset) sl (d : disk) ps, s_files sl = Some ps ->
+  find F sl d = Good (flat_map (entry_of F) ps).
+Proof. exact (explicit_selection_thm Data Bytes). Qed.
+
+(* ---- arguments of a single call.  `kcode` = what a keyword dictionary means to the handler. *)
+Variable kcode : kwargs -> Z.
+Notation fobj := (@fobj Data).
+Notation view := (view Data kcode).
+Notation call_step := (call_step Data Bytes enc dec pack unpack kcode).
+Notation calls := (calls Data Bytes enc dec pack unpack kcode).
+
+(* O.read(p, **a): the file is read with the dictionary {**O.read_args, **a} -- the call's own arguments override
+   the defaults key by key, the other defaults stay -- and the object O is afterwards what it was; without
+   arguments the call sees exactly the defaults *)
+Theorem read_with_args : forall (O : fobj) a p (d : disk),
+  call_step O (CRead a p) d = (O, rbind (read_file (view O a []) p d) (fun x => Good (d, VData x))) /\
+  rargs (view O a []) = kcode (kmerge (o_rd O) a) /\
+  (forall k, klook k (kmerge (o_rd O) a) = match klook k a with Some v => Some v | None => klook k (o_rd O) end) /\
+  view O [] [] = FSet (o_tpl O) (o_cov O) (o_hid O) (kcode (o_rd O)) (kcode (o_wd O)) (o_post O) (o_zc O) (o_zd O).
+Proof. exact (read_with_args_thm Data Bytes enc dec pack unpack kcode). Qed.
+
+Theorem write_with_args : forall (O : fobj) a x p (d : disk),
+  call_step O (CWrite a x p) d = (O, rbind (write_file (view O [] a) x p d) (fun d' => Good (d', VNone))) /\
+  wargs (view O [] a) = kcode (kmerge (o_wd O) a) /\
+  (forall k, klook k (kmerge (o_wd O) a) = match klook k a with Some v => Some v | None => klook k (o_wd O) end).
+Proof. exact (write_with_args_thm Data Bytes enc dec pack unpack kcode). Qed.
+
+(* over every history of calls (read / collect / write with arguments of their own, any other operation) the
+   object keeps its state ... *)
+Theorem calls_keep_object : forall cs (O : fobj) (d : disk), fst (calls O cs d) = O.
+Proof. exact (calls_keep_object_thm Data Bytes enc dec pack unpack kcode). Qed.
+
+(* ... so the arguments of earlier calls do not stick: after any history cs a call c gives what it gives on the
+   object as it was built, on the disk the history left *)
+Theorem args_do_not_stick : forall cs (O : fobj) c (d d1 : disk) outs,
+  snd (calls O cs d) = Good (d1, outs) ->
+  calls O (cs ++ [c]) d = (O, rbind (snd (call_step O c d1)) (fun r => Good (fst r, outs ++ [snd r]))).
+Proof. exact (args_do_not_stick_thm Data Bytes enc dec pack unpack kcode). Qed.
+
+(* write_read with per-call arguments: written with the write arguments aw of one call and read with the read
+   arguments ar of another, the object comes back when the two merged dictionaries mean the same to the handler *)
+Theorem write_read_with_args : forall (O : fobj) aw ar x p (d d' : disk), codec_ok ->
+  kcode (kmerge (o_rd O) ar) = kcode (kmerge (o_wd O) aw) -> o_zc O = o_zd O ->
+  snd (call_step O (CWrite aw x p) d) = Good (d', VNone) ->
+  snd (call_step O (CRead ar p) d') = Good (d', VData (o_post O x)) /\ (forall r, r <> p -> dlook r d' = dlook r d).
+Proof. exact (write_read_with_args_thm Data Bytes enc dec pack unpack kcode). Qed.
 
 End Statements.
 
@@ -186,6 +304,63 @@ Proof.
   - intros f b. unfold t_unpack, t_pack. rewrite Z.eqb_refl. reflexivity.
 Qed.
 
+(* non-vacuity of the sub-day end kind, on the instance the harness runs: end_hour/minute/second only, a file from
+   2017-12-31 23:30 to 2018-01-01 00:10 (the exact class: found under exactly (s, e) although the name only says
+   "001000"), and a 47-hour period (outside the exact class: found under the first such time after s) *)
+Example nonvacuous_partial_end :
+  let F : t_fset := FSet [Lit (s2l "R/a/"); T false FYear; Lit (s2l "/"); T false FMonth; Lit (s2l "/"); T false FDay;
+                 Lit (s2l "/"); T false FHour; T false FMinute; T false FSecond; Lit (s2l "-");
+                 T true FHour; T true FMinute; T true FSecond; Lit (s2l ".pkl")] None 1 0 0 (fun x => x) true true in
+  exists s e e2 r2,
+    mk 2017 12 31 23 30 0 0 = Some s /\ mk 2018 1 1 0 10 0 0 = Some e /\
+    mk 2018 1 2 22 30 0 0 = Some e2 /\ mk 2018 1 1 22 30 0 0 = Some r2 /\
+    start_ok (tpl F) s /\ valid e /\ s <= e /\ end_partial (tpl F) = true /\ end_exact (tpl F) (fields e) = true /\
+    0 <= e - s < unit_above (tpl F) /\ deterministic [] (tpl F) = true /\
+    wif_hyp F s e [] = true /\ wif_exact F s e = true /\ wif_period F s e = Some e /\
+    run_step (OWrite F s e [] 7) [] = TGood [("R/a/2017/12/31/233000-001000.pkl"%string, [1; 7])] TNone /\
+    run_step (OFind F (Sel s (s + 1) [] [] None)) [("R/a/2017/12/31/233000-001000.pkl"%string, [1; 7])] =
+      TGood [("R/a/2017/12/31/233000-001000.pkl"%string, [1; 7])]
+            (TFiles [("R/a/2017/12/31/233000-001000.pkl"%string, s, e, [])]) /\
+    wif_hyp F s e2 [] = true /\ wif_exact F s e2 = false /\ wif_period F s e2 = Some r2.
+Proof.
+  do 4 eexists. do 4 (split; [vm_compute; reflexivity|]).
+  unfold start_ok, valid. vm_compute. repeat split; try reflexivity; discriminate.
+Qed.
+
+(* non-vacuity of the empty explicit selection: with files=[] nothing is deleted or moved although the same call
+   without an explicit selection takes both files *)
+Example nonvacuous_empty_selection :
+  let F : t_fset := FSet [Lit (s2l "R/a/"); T false FYear; T false FMonth; T false FDay; Lit (s2l ".pkl")]
+                         None 1 0 0 (fun x => x) true true in
+  let G : t_fset := FSet [Lit (s2l "R/b/"); T false FYear; T false FDoy; Lit (s2l ".pkl")] None 1 0 0 (fun x => x) true true in
+  let d := [("R/a/20180101.pkl"%string, [1; 5]); ("R/a/20180102.pkl"%string, [1; 6])] in
+  let none := Sel 0 315537897599999999 [] [] (Some []) in
+  let all := Sel 0 315537897599999999 [] [] None in
+  s_files none = Some [] /\
+  run_step (ODelete F false none) d = TGood d TNone /\ run_step (ODelete F false all) d = TGood [] TNone /\
+  run_step (OMove F G false None none) d = TGood d TNone /\
+  run_step (OMove F G false None all) d =
+    TGood [("R/b/2018002.pkl"%string, [1; 6]); ("R/b/2018001.pkl"%string, [1; 5])] TNone.
+Proof. cbv zeta. repeat split; vm_compute; reflexivity. Qed.
+
+(* non-vacuity of the per-call arguments: an object with defaults offset=3 (read and write) and a post_reader adding
+   100; a file holding 13.  read() gives 110; read(offset=5) gives 108 and leaves the defaults alone, so that a
+   later read() gives 110 again; written with offset=9 and read with offset=9 the object comes back *)
+Example nonvacuous_call_args :
+  let O : t_fobj := FObj [Lit (s2l "R/a/"); T false FYear; T false FMonth; T false FDay; Lit (s2l ".pkl")] None 1
+                         (kw_in [("offset"%string, 3)]) (kw_in [("offset"%string, 3)]) (Z.add 100) true true in
+  let p := s2l "R/a/20180101.pkl" in
+  let d := [("R/a/20180101.pkl"%string, [1; 13])] in
+  run_call O (CRead [] p) d = (TGood d (TData 110), [("offset"%string, 3)], [("offset"%string, 3)]) /\
+  run_call O (CRead (kw_in [("offset"%string, 5)]) p) d = (TGood d (TData 108), [("offset"%string, 3)], [("offset"%string, 3)]) /\
+  t_calls O [CRead (kw_in [("offset"%string, 5)]) p; CRead [] p] (in_disk d) = (O, Good (in_disk d, [VData 108; VData 110])) /\
+  t_kcode (kmerge (o_rd O) (kw_in [("offset"%string, 9)])) = t_kcode (kmerge (o_wd O) (kw_in [("offset"%string, 9)])) /\
+  run_call O (CWrite (kw_in [("offset"%string, 9)]) 20 p) d =
+    (TGood [("R/a/20180101.pkl"%string, [1; 29])] TNone, [("offset"%string, 3)], [("offset"%string, 3)]) /\
+  run_call O (CRead (kw_in [("offset"%string, 9)]) p) [("R/a/20180101.pkl"%string, [1; 29])] =
+    (TGood [("R/a/20180101.pkl"%string, [1; 29])] (TData 120), [("offset"%string, 3)], [("offset"%string, 3)]).
+Proof. cbv zeta. repeat split; vm_compute; reflexivity. Qed.
+
 Print Assumptions move_conserves.
 Print Assumptions move_conserves_period.
 Print Assumptions move_succeeds.
@@ -193,8 +368,19 @@ Print Assumptions move_hyp_sound.
 Print Assumptions convert_reads_back.
 Print Assumptions write_read.
 Print Assumptions written_is_found.
+Print Assumptions written_is_found_partial.
+Print Assumptions written_is_found_exact.
+Print Assumptions written_is_found_no_end.
+Print Assumptions written_is_found_law.
 Print Assumptions selection_exact.
 Print Assumptions delete_exact.
 Print Assumptions dry_run_noop.
 Print Assumptions step_frame.
 Print Assumptions history_frame.
+Print Assumptions empty_selection_noop.
+Print Assumptions explicit_selection.
+Print Assumptions read_with_args.
+Print Assumptions write_with_args.
+Print Assumptions calls_keep_object.
+Print Assumptions args_do_not_stick.
+Print Assumptions write_read_with_args.
